@@ -292,11 +292,30 @@ namespace {
         {
             Program p;
             int nops = (int) r.range(2, 40);
+            // backlog shape: a burst of pushes, a partial drain (so that the queue's internal block ring has been
+            // rotated), then a backlog larger than the initial internal capacity (32 blocks of 32 elements for
+            // the moodycamel queue), followed by ordinary traffic. v[2] = repeat count of an op (0: once).
+            if (ctx.params.set("c17.backlog", r.chance(1, 6) ? 1 : 0) != 0)
+            {
+                int64_t a = (int64_t) r.range(33, 700), b = (int64_t) r.range(1, (uint64_t) a), c2 = (int64_t) r.range(900, 2200);
+                int64_t owner = (int64_t) r.below((uint64_t) nthreads);
+                int64_t const seq[3][2] = {{0, a}, {2 + (int64_t) r.below(2), b}, {(int64_t) r.below(2), c2}};
+                for (auto const& s : seq)
+                {
+                    Op op;
+                    op.v[0] = r.chance(3, 4) ? owner : (int64_t) r.below((uint64_t) nthreads);
+                    op.v[1] = s[0];
+                    op.v[2] = s[1];
+                    p.push_back(op);
+                }
+                nops = (int) r.range(2, 16);
+            }
             for (int i = 0; i < nops; i++)
             {
                 Op op;
                 op.v[0] = (int64_t) r.below((uint64_t) nthreads);
                 op.v[1] = (int64_t) r.below(4);
+                if (r.chance(1, 12)) op.v[2] = (int64_t) r.range(2, 80);
                 p.push_back(op);
             }
             ctx.program = p;
@@ -311,6 +330,13 @@ namespace {
             for (auto const& op : prog)
             {
                 if (op.v[0] != me) continue;
+                int64_t const reps = op.v[2] > 1 ? op.v[2] : 1;
+                for (int64_t rep = 0; rep < reps; rep++)
+                {
+                // all but the last three repetitions of a burst run without preemption (a legal schedule: the
+                // operations are lock-free) so that big backlogs stay affordable
+                std::optional<AtomicSection> unpreempted;
+                if (rep + 3 < reps) unpreempted.emplace();
                 HOp h{me, (int) (op.v[1] & 3), 0, false, 0, 0, 0};
                 {
                     AtomicSection a;
@@ -341,6 +367,7 @@ namespace {
                 h.result = tmp;
                 h.ret = sim_seq();
                 H.push_back(h);
+                }
             }
         });
         std::set<int64_t> pushed, popped;
@@ -406,8 +433,11 @@ namespace {
             }
         }
         size_t remaining = pushed.size() - popped.size();
+        if (remaining > 1024) probe("backend.backlog_over_initial_capacity");
         for (size_t i = 0; i < remaining; i++)
         {
+            std::optional<AtomicSection> unpreempted;
+            if (remaining > 64) unpreempted.emplace();
             int64_t* v = nullptr;
             bool ok = q.pop(v, (i & 1) != 0);
             VH_CHECK(ok, "C17.backend.lost", "queue empty with %zu elements never popped", remaining - i);
